@@ -394,6 +394,7 @@ fn examine(e: &Ex, pos: Pos, sup: &Support) -> Examined {
         _ => None,
     };
     let mut with_next = false;
+    let mut second: Option<i128> = None;
     let text = match pos {
         Pos::Assert => {
             let targ = match (&expected, ety) {
@@ -413,7 +414,17 @@ fn examine(e: &Ex, pos: Pos, sup: &Support) -> Examined {
         Pos::Enum => {
             // an implicit enumerator after a bool one panics with 'Unexpected constant type' (not an overflow: C08)
             with_next = !matches!(ety, Some(Ty::Bool) | None);
-            format!("{}enum EE {{ EA = {}{} }};\n", pre, src, if with_next { ", EB" } else { "" })
+            // one case in three gives the second enumerator a value of its own from the other end of the 32-bit ranges: the
+            // enumeration then has to fit both values into one underlying type, or be rejected
+            let h = hash_str(&src);
+            if h % 3 == 0 {
+                with_next = false;
+                let k: i128 = [-1, i32::MIN as i128, u32::MAX as i128, 2147483648, 0, i32::MAX as i128][((h / 3) % 6) as usize];
+                second = Some(k);
+                format!("{}enum EE {{ EA = {}, EB = {} }};\n", pre, src, k)
+            } else {
+                format!("{}enum EE {{ EA = {}{} }};\n", pre, src, if with_next { ", EB" } else { "" })
+            }
         }
         Pos::Case => format!("{}void f(int s) {{ switch (s) {{ case {}: break; default: break; }} }}\n", pre, src),
         Pos::Template => format!("{}template<int N> void t() {{}}\nvoid f() {{ t<{}>(); }}\n", pre, src),
@@ -597,6 +608,16 @@ fn examine(e: &Ex, pos: Pos, sup: &Support) -> Examined {
                             // type the enumeration continues in a wider type (the C++ rule HLSL 2021 enums follow), it does not wrap;
                             // a range that fits no 32-bit type is rejected (the diagnostic arm below)
                             let next_defined = true;
+                            if let Some(k) = second {
+                                // both enumerators are explicit: each keeps its value (the diagnostic arm decides whether the pair fits)
+                                let fits = (n.min(k) >= i32::MIN as i128 && n.max(k) <= i32::MAX as i128) || (n.min(k) >= 0 && n.max(k) <= u32::MAX as i128);
+                                return match b {
+                                    _ if !fits => done(violation("value", "value:enum:range-fits-no-type-accepted".into(), format!("enumerators {} and {} fit no 32-bit type but the enumeration is accepted with EA={} EB={}", n, k, a.show(), b.as_ref().map(|b| b.show()).unwrap_or_default())), true),
+                                    Some(b) if b.as_integer() == Some(k) => done(Verdict::Agree, true),
+                                    Some(b) => done(violation("value", "value:enum:second-explicit".into(), format!("enumerator initialised with {} has value {}", k, b.show())), true),
+                                    None => done(Verdict::Skip("skipped:lost:EB".into()), false),
+                                };
+                            }
                             if with_next && next_defined {
                                 match b {
                                     Some(b) if b.as_integer() == n.checked_add(1) => done(Verdict::Agree, true),
@@ -611,7 +632,11 @@ fn examine(e: &Ex, pos: Pos, sup: &Support) -> Examined {
                             if d.contains("can not fit in any type") {
                                 // rssl only has 32-bit enums: a range that fits neither int nor uint is rejected
                                 let hi = if with_next { n.saturating_add(1) } else { n };
-                                let fits = (n >= i32::MIN as i128 && hi <= i32::MAX as i128) || (n >= 0 && hi <= u32::MAX as i128);
+                                let (lo, hi) = match second {
+                                    Some(k) => (n.min(k), n.max(k)),
+                                    None => (n, hi),
+                                };
+                                let fits = (lo >= i32::MIN as i128 && hi <= i32::MAX as i128) || (lo >= 0 && hi <= u32::MAX as i128);
                                 if fits {
                                     done(violation("value", format!("value:enum:{}", shape), format!("range {}..{} rejected: {}", n, hi, diag_msg(d))), true)
                                 } else {
